@@ -136,7 +136,53 @@ pub fn check_cli(dict: &[WR], tag: &str) -> Option<(String, String)> {
     res.err()
 }
 
+/// CLI history: several dumps (of models with different dictionaries) go to the SAME csv path and
+/// several outputs to the SAME model path, as a user iterating on a dictionary would do; after the
+/// last dump, replacing with it must reproduce the last model byte for byte.
+pub fn check_cli_history(dicts: &[Vec<WR>], tag: &str) -> Option<(String, String)> {
+    let dir = format!("{SCRATCH}/c19h-{tag}");
+    let _ = std::fs::create_dir_all(&dir);
+    let (min, csv, mout) = (format!("{dir}/in.zst"), format!("{dir}/dict.csv"), format!("{dir}/out.zst"));
+    let res = (|| -> Result<(), (String, String)> {
+        let mut last = vec![];
+        for (step, dict) in dicts.iter().enumerate() {
+            let mut base = models::build(&[Entry::Char("a".into())], 2, 2, 1, 0);
+            base.dict_model = dict.clone();
+            last = base.to_bytes();
+            write_zst(&min, &last);
+            let (rc, err) = run_tool(&["--model-in", &min, "--dump-dict", &csv]).unwrap_or_else(|e| machinery_error(&e));
+            if rc != 0 {
+                return Err(("cli-history-dump-failed".into(), format!("step {step}: --dump-dict exited with {rc}: {err}")));
+            }
+            let (rc, err) = run_tool(&["--model-in", &min, "--replace-dict", &csv, "--model-out", &mout]).unwrap_or_else(|e| machinery_error(&e));
+            if rc != 0 {
+                return Err(("cli-history-replace-failed".into(), format!("step {step}: --replace-dict with the untouched dump (dump path reused from earlier steps) exited with {rc}: {err}")));
+            }
+            let z = std::fs::read(&mout).map_err(|e| ("cli-history-no-output".to_string(), e.to_string()))?;
+            let out = zstd::decode_all(&z[..]).map_err(|e| ("cli-history-output-not-zstd".to_string(), format!("step {step}: {e}")))?;
+            if out != last {
+                let got = ModelSpec::from_bytes(&out).map(|x| x.0.dict_model.iter().map(|d| d.word.clone()).collect::<Vec<_>>());
+                return Err(("cli-history-not-lossless".into(), format!("step {step}: after dumps of dictionaries with {:?} words to the same path, dump + replace gives dictionary {got:?}, expected {:?}", dicts.iter().map(|d| d.len()).collect::<Vec<_>>(), dict.iter().map(|d| &d.word).collect::<Vec<_>>())));
+            }
+        }
+        Ok(())
+    })();
+    let _ = std::fs::remove_dir_all(&dir);
+    res.err()
+}
+
+fn history_pool() -> Vec<Vec<WR>> {
+    let words = ["a", "あa", "ab,c", "火星猫", "x y", "\"q\"", "犬"];
+    let mk = |ix: &[usize]| -> Vec<WR> { ix.iter().map(|&i| WR { word: words[i].into(), weights: (0..words[i].chars().count() + 1).map(|k| (i * 10 + k) as i32 - 7).collect(), comment: if i % 2 == 0 { "note".into() } else { String::new() } }).collect() };
+    vec![mk(&[]), mk(&[0]), mk(&[1, 2, 3]), mk(&[0, 1, 2, 3, 4, 5, 6]), mk(&[6])]
+}
+
 pub fn replay(c: &Value) -> Option<(String, String)> {
+    if c["kind"] == "cli-history" {
+        let dicts: Vec<Vec<WR>> = serde_json::from_value(c["dicts"].clone()).ok()?;
+        let label = c["label"].as_str()?;
+        return check_cli_history(&dicts, "replay").map(|(k, w)| (format!("{k} order={label}"), w));
+    }
     match c["kind"].as_str()? {
         "replace" => {
             let base: ModelSpec = serde_json::from_value(c["base"].clone()).ok()?;
@@ -218,11 +264,37 @@ pub fn run(tier: Tier) -> ! {
             chk.violation(format!("{k} words={tag}"), what, json!({"kind": "cli", "label": tag, "dict": dict}));
         }
     }
+    // histories: every ordered pair and triple of 5 dictionaries of different sizes through the same files
+    let hp = history_pool();
+    let mut orders: Vec<Vec<usize>> = vec![];
+    for a in 0..hp.len() {
+        for b in 0..hp.len() {
+            if a != b {
+                orders.push(vec![a, b]);
+                for c in 0..hp.len() {
+                    if c != b && tier == Tier::Thorough {
+                        orders.push(vec![a, b, c]);
+                    }
+                }
+            }
+        }
+    }
+    chk.set("cli_histories", json!(orders.len()));
+    orders.par_iter().for_each(|o| {
+        let dicts: Vec<Vec<WR>> = o.iter().map(|&i| hp[i].clone()).collect();
+        let label = o.iter().map(|i| i.to_string()).collect::<Vec<_>>().join(">");
+        chk.eval(1);
+        chk.nontrivial(1);
+        if let Some((k, what)) = check_cli_history(&dicts, &label.replace('>', "-")) {
+            chk.violation(format!("{k} order={label}"), what, json!({"kind": "cli-history", "label": label, "dicts": dicts}));
+        }
+    });
+    chk.sample(json!({"kind": "cli-history", "meaning": "dump a 7-word dictionary, then a 1-word dictionary to the same csv path, replace with it: the model must be reproduced byte for byte"}));
     chk.sample(json!({"kind": "cli", "word": "a,\"", "weights": [0, -1, 32767, -32768], "comment": "\n#"}));
     chk.sample(json!({"kind": "replace", "base": "C01 family model", "new_dictionary": ["a", "あa"]}));
     chk.assume("the csv and zstd crates are trusted; the dump is replayed byte-for-byte as written by the tool");
     chk.finish(
-        "API: sub-sampled C01 models x every replacement dictionary of <=2 words over {a,あ} (len<=3) x all texts (score differences vs reference, model unchanged outside the dictionary), every weight count 0..7 for 6 words; CLI: the real manipulate_model on every word up to the bound over {a , \" space LF CR あ #} with extreme weights and hostile comments, alone and all together: dump, replace with the untouched dump, byte comparison, and rejection of a record with a wrong weight count; every case is non-trivial",
+        "API: sub-sampled C01 models x every replacement dictionary of <=2 words over {a,あ} (len<=3) x all texts (score differences vs reference, model unchanged outside the dictionary), every weight count 0..7 for 6 words; CLI: the real manipulate_model on every word up to the bound over {a , \" space LF CR あ #} with extreme weights and hostile comments, alone and all together: dump, replace with the untouched dump, byte comparison, rejection of a record with a wrong weight count, and every ordered pair (thorough: + triple) of 5 dictionaries of different sizes dumped to the same csv path / written to the same model path before the final dump + replace; every case is non-trivial",
         true,
         &replay,
     )
